@@ -65,6 +65,22 @@ def cases(tier, seed):
                     kern.append(["public.kern1.O", "public.kern2.A", -37 * 4])
             out[-1].update({"varFeatures": True, "prodNames": False, "kern2": k % 8 == 7})
     out += vfs_cases(random.Random(seed * 373587883 + 100010), 4 if tier == "quick" else 40, f"c10-{seed}")
+    # flattenComponents on a variable TrueType build with a composite nested two levels deep whose INNER offsets differ between
+    # the masters: each master's nested references are resolved in that master
+    rng4 = random.Random(seed * 373587883 + 100012)
+    for k in range(4 if tier == "quick" else 40):
+        fam = gen.rich_family(rng4, n_masters=2 + k % 2, kerning=False, features=False)
+        P = 1024
+        for j, m in enumerate(fam["masters"]):
+            g = m["ufo"]["glyphs"]
+            g["box"] = {"cs": [[[0, 0, "line"], [100 * P, 0, "line"], [100 * P, (200 + 20 * j) * P, "line"], [0, (200 + 20 * j) * P, "line"]]],
+                        "comps": [], "anchors": [], "w": 300 * P, "h": 0, "u": []}
+            g["mid"] = {"cs": [], "comps": [{"b": "box", "m": [64, 0, 0, 64], "d": [(10 + 25 * j) * P, (10 * j) * P]}], "anchors": [], "w": 300 * P, "h": 0, "u": []}
+            g["top"] = {"cs": [], "comps": [{"b": "mid", "m": [64, 0, 0, 64], "d": [(5 + 3 * j) * P, 150 * P]}, {"b": "box", "m": [64, 0, 0, 64], "d": [400 * P, 0]}],
+                        "anchors": [], "w": 600 * P, "h": 0, "u": [0x54]}
+            m["ufo"]["order"] = list(m["ufo"]["order"]) + ["box", "mid", "top"]
+        out.append({"cid": f"c10-{seed}-fl{k}", "lib": rng4.choice(["ufoLib2", "defcon"]), "fam": fam, "flavor": "tt", "varFeatures": True,
+                    "prodNames": False, "kern2": False, "extraKw": {"flattenComponents": True} if k % 4 != 3 else {}})
     # kerning groups need not be the same in every master: a group (and a class pair using it) that only a NON-default master
     # defines still kerns at that master's location
     rng3 = random.Random(seed * 373587883 + 100011)
@@ -149,6 +165,7 @@ def execute(case):
     lib = case["lib"]
     fam = case["fam"]
     kw = {"variableFeatures": case["varFeatures"], "useProductionNames": case["prodNames"]}
+    kw.update(case.get("extraKw") or {})
     if case.get("kern2"):
         # the second kern writer, selected through the lib of every source (the variable-features path reads the default's)
         fam = copy.deepcopy(fam)
@@ -187,10 +204,11 @@ def execute(case):
     writers_only_add = all(subseq(a, b) for wtexts in by_compile.values() for a, b in zip(wtexts, wtexts[1:]))
     data, vf = project.save_reload(vf)
     ds2 = dsbuild.build_designspace(fam, lib)
+    xkw = dict(case.get("extraKw") or {})
     if case["flavor"] == "tt":
-        masters = [s.font for s in ufo2ft.compileInterpolatableTTFsFromDS(ds2, useProductionNames=case["prodNames"]).sources]
+        masters = [s.font for s in ufo2ft.compileInterpolatableTTFsFromDS(ds2, useProductionNames=case["prodNames"], **xkw).sources]
     else:
-        masters = [s.font for s in ufo2ft.compileInterpolatableOTFsFromDS(ds2, useProductionNames=case["prodNames"]).sources]
+        masters = [s.font for s in ufo2ft.compileInterpolatableOTFsFromDS(ds2, useProductionNames=case["prodNames"], **xkw).sources]
     for k, m in enumerate(fam["masters"]):
         loc = m["loc"]["Weight"]
         from fontTools.ttLib import TTFont
@@ -209,6 +227,12 @@ def execute(case):
         recs.append({"tid": tid + "/vf", "_acc": "vf", "outlineDiffMilli": int(worst * 1000), "advDiff": int(adv), "structSame": same_struct,
                      "glyphsSame": same_glyphs, "events": events, "varFeatures": case["varFeatures"], "writersOnlyAdd": writers_only_add,
                      "_sig": [case["cid"], k], "_k": k})
+        if case["flavor"] == "tt":
+            # ... and with the master's SOURCE: glyphs made of straight lines only are compared point set against point set
+            # (the compiled masters could share an error with the variable font)
+            sd = _source_point_distance(m["ufo"]["glyphs"], inst)
+            if sd is not None:
+                recs[-1]["srcDiffMilli"] = sd
         if not case["prodNames"]:
             mcase = {"ufo": m["ufo"], "q": 1, "var": True}
             kr = layout_exec.kern_record(mcase, inst, tid + "/kern")
@@ -220,6 +244,38 @@ def execute(case):
             mr["_k"] = k
             recs.append(mr)
     return recs
+
+
+def _source_point_distance(glyphs, inst):
+    """largest distance (milli-units) between the point set a line-only source glyph resolves to and the point set the
+    instance draws for it, both ways; None when no glyph qualifies"""
+    from .. import compile_exec
+    from ..absfont import PS
+
+    glyf = inst["glyf"]
+    worst, seen = 0.0, False
+    for n, g in glyphs.items():
+        if n not in glyf.glyphs and n not in inst.getGlyphOrder():
+            continue
+        try:
+            r = compile_exec.resolved_form(glyphs, n)
+        except Exception:  # noqa
+            continue
+        pts = [(p[0] / PS, p[1] / PS) for c in r["cs"] for p in c]
+        if not pts or any(p[2] != "line" for c in r["cs"] for p in c):
+            continue
+        tt = glyf[n]
+        if tt.numberOfContours == 0:
+            continue
+        coords, _, _ = tt.getCoordinates(glyf)
+        obs = [(float(x), float(y)) for x, y in coords]
+        if not obs:
+            continue
+        seen = True
+        for A, B in ((pts, obs), (obs, pts)):
+            for (x, y) in A:
+                worst = max(worst, min(max(abs(x - u), abs(y - v)) for (u, v) in B))
+    return int(worst * 1000) if seen else None
 
 
 def vfs_cases(rng, n, prefix):
